@@ -6,7 +6,7 @@ use crate::{
         ArithmeticOverflow, DifferenceSettings, Disambiguation, DisplayCalendar, DisplayOffset,
         DisplayTimeZone, OffsetDisambiguation, ToStringRoundingOptions,
     },
-    Duration, MonthCode, PlainDate, PlainDateTime, PlainTime, TemporalError, TemporalResult,
+    Duration, MonthCode, PlainDate, PlainDateTime, PlainTime, TemporalResult,
 };
 use alloc::string::String;
 use tinystr::TinyAsciiStr;
@@ -42,7 +42,8 @@ impl ZonedDateTime {
     pub fn year(&self) -> TemporalResult<i32> {
         let provider = TZ_PROVIDER
             .lock()
-            .map_err(|_| TemporalError::general("Unable to acquire lock"))?;
+            // NOTE: A panic in an earlier call poisons the lock; the provider is still usable.
+            .unwrap_or_else(std::sync::PoisonError::into_inner);
         self.year_with_provider(&*provider)
     }
 
@@ -52,7 +53,8 @@ impl ZonedDateTime {
     pub fn month(&self) -> TemporalResult<u8> {
         let provider = TZ_PROVIDER
             .lock()
-            .map_err(|_| TemporalError::general("Unable to acquire lock"))?;
+            // NOTE: A panic in an earlier call poisons the lock; the provider is still usable.
+            .unwrap_or_else(std::sync::PoisonError::into_inner);
         self.month_with_provider(&*provider)
     }
 
@@ -62,7 +64,8 @@ impl ZonedDateTime {
     pub fn month_code(&self) -> TemporalResult<MonthCode> {
         let provider = TZ_PROVIDER
             .lock()
-            .map_err(|_| TemporalError::general("Unable to acquire lock"))?;
+            // NOTE: A panic in an earlier call poisons the lock; the provider is still usable.
+            .unwrap_or_else(std::sync::PoisonError::into_inner);
         self.month_code_with_provider(&*provider)
     }
 
@@ -72,7 +75,8 @@ impl ZonedDateTime {
     pub fn day(&self) -> TemporalResult<u8> {
         let provider = TZ_PROVIDER
             .lock()
-            .map_err(|_| TemporalError::general("Unable to acquire lock"))?;
+            // NOTE: A panic in an earlier call poisons the lock; the provider is still usable.
+            .unwrap_or_else(std::sync::PoisonError::into_inner);
         self.day_with_provider(&*provider)
     }
 
@@ -82,7 +86,8 @@ impl ZonedDateTime {
     pub fn hour(&self) -> TemporalResult<u8> {
         let provider = TZ_PROVIDER
             .lock()
-            .map_err(|_| TemporalError::general("Unable to acquire lock"))?;
+            // NOTE: A panic in an earlier call poisons the lock; the provider is still usable.
+            .unwrap_or_else(std::sync::PoisonError::into_inner);
         self.hour_with_provider(&*provider)
     }
 
@@ -90,7 +95,8 @@ impl ZonedDateTime {
     pub fn minute(&self) -> TemporalResult<u8> {
         let provider = TZ_PROVIDER
             .lock()
-            .map_err(|_| TemporalError::general("Unable to acquire lock"))?;
+            // NOTE: A panic in an earlier call poisons the lock; the provider is still usable.
+            .unwrap_or_else(std::sync::PoisonError::into_inner);
         self.minute_with_provider(&*provider)
     }
 
@@ -98,7 +104,8 @@ impl ZonedDateTime {
     pub fn second(&self) -> TemporalResult<u8> {
         let provider = TZ_PROVIDER
             .lock()
-            .map_err(|_| TemporalError::general("Unable to acquire lock"))?;
+            // NOTE: A panic in an earlier call poisons the lock; the provider is still usable.
+            .unwrap_or_else(std::sync::PoisonError::into_inner);
         self.second_with_provider(&*provider)
     }
 
@@ -106,7 +113,8 @@ impl ZonedDateTime {
     pub fn millisecond(&self) -> TemporalResult<u16> {
         let provider = TZ_PROVIDER
             .lock()
-            .map_err(|_| TemporalError::general("Unable to acquire lock"))?;
+            // NOTE: A panic in an earlier call poisons the lock; the provider is still usable.
+            .unwrap_or_else(std::sync::PoisonError::into_inner);
         self.millisecond_with_provider(&*provider)
     }
 
@@ -114,7 +122,8 @@ impl ZonedDateTime {
     pub fn microsecond(&self) -> TemporalResult<u16> {
         let provider = TZ_PROVIDER
             .lock()
-            .map_err(|_| TemporalError::general("Unable to acquire lock"))?;
+            // NOTE: A panic in an earlier call poisons the lock; the provider is still usable.
+            .unwrap_or_else(std::sync::PoisonError::into_inner);
         self.microsecond_with_provider(&*provider)
     }
 
@@ -122,7 +131,8 @@ impl ZonedDateTime {
     pub fn nanosecond(&self) -> TemporalResult<u16> {
         let provider = TZ_PROVIDER
             .lock()
-            .map_err(|_| TemporalError::general("Unable to acquire lock"))?;
+            // NOTE: A panic in an earlier call poisons the lock; the provider is still usable.
+            .unwrap_or_else(std::sync::PoisonError::into_inner);
 
         self.nanosecond_with_provider(&*provider)
     }
@@ -131,7 +141,8 @@ impl ZonedDateTime {
     pub fn offset(&self) -> TemporalResult<String> {
         let provider = TZ_PROVIDER
             .lock()
-            .map_err(|_| TemporalError::general("Unable to acquire lock"))?;
+            // NOTE: A panic in an earlier call poisons the lock; the provider is still usable.
+            .unwrap_or_else(std::sync::PoisonError::into_inner);
         self.offset_with_provider(&*provider)
     }
 
@@ -139,7 +150,8 @@ impl ZonedDateTime {
     pub fn offset_nanoseconds(&self) -> TemporalResult<i64> {
         let provider = TZ_PROVIDER
             .lock()
-            .map_err(|_| TemporalError::general("Unable to acquire lock"))?;
+            // NOTE: A panic in an earlier call poisons the lock; the provider is still usable.
+            .unwrap_or_else(std::sync::PoisonError::into_inner);
         self.offset_nanoseconds_with_provider(&*provider)
     }
 }
@@ -161,7 +173,8 @@ impl ZonedDateTime {
     pub fn era(&self) -> TemporalResult<Option<TinyAsciiStr<16>>> {
         let provider = TZ_PROVIDER
             .lock()
-            .map_err(|_| TemporalError::general("Unable to acquire lock"))?;
+            // NOTE: A panic in an earlier call poisons the lock; the provider is still usable.
+            .unwrap_or_else(std::sync::PoisonError::into_inner);
         self.era_with_provider(&*provider)
     }
 
@@ -175,7 +188,8 @@ impl ZonedDateTime {
     pub fn era_year(&self) -> TemporalResult<Option<i32>> {
         let provider = TZ_PROVIDER
             .lock()
-            .map_err(|_| TemporalError::general("Unable to acquire lock"))?;
+            // NOTE: A panic in an earlier call poisons the lock; the provider is still usable.
+            .unwrap_or_else(std::sync::PoisonError::into_inner);
         self.era_year_with_provider(&*provider)
     }
 
@@ -185,7 +199,8 @@ impl ZonedDateTime {
     pub fn day_of_week(&self) -> TemporalResult<u16> {
         let provider = TZ_PROVIDER
             .lock()
-            .map_err(|_| TemporalError::general("Unable to acquire lock"))?;
+            // NOTE: A panic in an earlier call poisons the lock; the provider is still usable.
+            .unwrap_or_else(std::sync::PoisonError::into_inner);
         self.day_of_week_with_provider(&*provider)
     }
 
@@ -195,7 +210,8 @@ impl ZonedDateTime {
     pub fn day_of_year(&self) -> TemporalResult<u16> {
         let provider = TZ_PROVIDER
             .lock()
-            .map_err(|_| TemporalError::general("Unable to acquire lock"))?;
+            // NOTE: A panic in an earlier call poisons the lock; the provider is still usable.
+            .unwrap_or_else(std::sync::PoisonError::into_inner);
         self.day_of_year_with_provider(&*provider)
     }
 
@@ -205,7 +221,8 @@ impl ZonedDateTime {
     pub fn week_of_year(&self) -> TemporalResult<Option<u16>> {
         let provider = TZ_PROVIDER
             .lock()
-            .map_err(|_| TemporalError::general("Unable to acquire lock"))?;
+            // NOTE: A panic in an earlier call poisons the lock; the provider is still usable.
+            .unwrap_or_else(std::sync::PoisonError::into_inner);
         self.week_of_year_with_provider(&*provider)
     }
 
@@ -215,7 +232,8 @@ impl ZonedDateTime {
     pub fn year_of_week(&self) -> TemporalResult<Option<i32>> {
         let provider = TZ_PROVIDER
             .lock()
-            .map_err(|_| TemporalError::general("Unable to acquire lock"))?;
+            // NOTE: A panic in an earlier call poisons the lock; the provider is still usable.
+            .unwrap_or_else(std::sync::PoisonError::into_inner);
         self.year_of_week_with_provider(&*provider)
     }
 
@@ -225,7 +243,8 @@ impl ZonedDateTime {
     pub fn days_in_week(&self) -> TemporalResult<u16> {
         let provider = TZ_PROVIDER
             .lock()
-            .map_err(|_| TemporalError::general("Unable to acquire lock"))?;
+            // NOTE: A panic in an earlier call poisons the lock; the provider is still usable.
+            .unwrap_or_else(std::sync::PoisonError::into_inner);
         self.days_in_week_with_provider(&*provider)
     }
 
@@ -235,7 +254,8 @@ impl ZonedDateTime {
     pub fn days_in_month(&self) -> TemporalResult<u16> {
         let provider = TZ_PROVIDER
             .lock()
-            .map_err(|_| TemporalError::general("Unable to acquire lock"))?;
+            // NOTE: A panic in an earlier call poisons the lock; the provider is still usable.
+            .unwrap_or_else(std::sync::PoisonError::into_inner);
         self.days_in_month_with_provider(&*provider)
     }
 
@@ -245,7 +265,8 @@ impl ZonedDateTime {
     pub fn days_in_year(&self) -> TemporalResult<u16> {
         let provider = TZ_PROVIDER
             .lock()
-            .map_err(|_| TemporalError::general("Unable to acquire lock"))?;
+            // NOTE: A panic in an earlier call poisons the lock; the provider is still usable.
+            .unwrap_or_else(std::sync::PoisonError::into_inner);
         self.days_in_year_with_provider(&*provider)
     }
 
@@ -255,7 +276,8 @@ impl ZonedDateTime {
     pub fn months_in_year(&self) -> TemporalResult<u16> {
         let provider = TZ_PROVIDER
             .lock()
-            .map_err(|_| TemporalError::general("Unable to acquire lock"))?;
+            // NOTE: A panic in an earlier call poisons the lock; the provider is still usable.
+            .unwrap_or_else(std::sync::PoisonError::into_inner);
         self.months_in_year_with_provider(&*provider)
     }
 
@@ -265,7 +287,8 @@ impl ZonedDateTime {
     pub fn in_leap_year(&self) -> TemporalResult<bool> {
         let provider = TZ_PROVIDER
             .lock()
-            .map_err(|_| TemporalError::general("Unable to acquire lock"))?;
+            // NOTE: A panic in an earlier call poisons the lock; the provider is still usable.
+            .unwrap_or_else(std::sync::PoisonError::into_inner);
         self.in_leap_year_with_provider(&*provider)
     }
 
@@ -276,7 +299,8 @@ impl ZonedDateTime {
     ) -> TemporalResult<Option<Self>> {
         let provider = TZ_PROVIDER
             .lock()
-            .map_err(|_| TemporalError::general("Unable to acquire lock"))?;
+            // NOTE: A panic in an earlier call poisons the lock; the provider is still usable.
+            .unwrap_or_else(std::sync::PoisonError::into_inner);
         self.get_time_zone_transition_with_provider(direction, &*provider)
     }
 
@@ -286,7 +310,8 @@ impl ZonedDateTime {
     pub fn hours_in_day(&self) -> TemporalResult<f64> {
         let provider = TZ_PROVIDER
             .lock()
-            .map_err(|_| TemporalError::general("Unable to acquire lock"))?;
+            // NOTE: A panic in an earlier call poisons the lock; the provider is still usable.
+            .unwrap_or_else(std::sync::PoisonError::into_inner);
         self.hours_in_day_with_provider(&*provider)
     }
 }
@@ -304,7 +329,8 @@ impl ZonedDateTime {
     pub fn with_plain_time(&self, time: PlainTime) -> TemporalResult<Self> {
         let provider = TZ_PROVIDER
             .lock()
-            .map_err(|_| TemporalError::general("Unable to acquire lock"))?;
+            // NOTE: A panic in an earlier call poisons the lock; the provider is still usable.
+            .unwrap_or_else(std::sync::PoisonError::into_inner);
         self.with_plain_time_and_provider(time, &*provider)
     }
 
@@ -318,7 +344,8 @@ impl ZonedDateTime {
     ) -> TemporalResult<Self> {
         let provider = TZ_PROVIDER
             .lock()
-            .map_err(|_| TemporalError::general("Unable to acquire lock"))?;
+            // NOTE: A panic in an earlier call poisons the lock; the provider is still usable.
+            .unwrap_or_else(std::sync::PoisonError::into_inner);
         self.add_with_provider(duration, overflow, &*provider)
     }
 
@@ -332,7 +359,8 @@ impl ZonedDateTime {
     ) -> TemporalResult<Self> {
         let provider = TZ_PROVIDER
             .lock()
-            .map_err(|_| TemporalError::general("Unable to acquire lock"))?;
+            // NOTE: A panic in an earlier call poisons the lock; the provider is still usable.
+            .unwrap_or_else(std::sync::PoisonError::into_inner);
         self.subtract_with_provider(duration, overflow, &*provider)
     }
 
@@ -342,7 +370,8 @@ impl ZonedDateTime {
     pub fn since(&self, other: &Self, options: DifferenceSettings) -> TemporalResult<Duration> {
         let provider = TZ_PROVIDER
             .lock()
-            .map_err(|_| TemporalError::general("Unable to acquire lock"))?;
+            // NOTE: A panic in an earlier call poisons the lock; the provider is still usable.
+            .unwrap_or_else(std::sync::PoisonError::into_inner);
         self.since_with_provider(other, options, &*provider)
     }
 
@@ -352,7 +381,8 @@ impl ZonedDateTime {
     pub fn until(&self, other: &Self, options: DifferenceSettings) -> TemporalResult<Duration> {
         let provider = TZ_PROVIDER
             .lock()
-            .map_err(|_| TemporalError::general("Unable to acquire lock"))?;
+            // NOTE: A panic in an earlier call poisons the lock; the provider is still usable.
+            .unwrap_or_else(std::sync::PoisonError::into_inner);
         self.until_with_provider(other, options, &*provider)
     }
 
@@ -362,7 +392,8 @@ impl ZonedDateTime {
     pub fn start_of_day(&self) -> TemporalResult<Self> {
         let provider = TZ_PROVIDER
             .lock()
-            .map_err(|_| TemporalError::general("Unable to acquire lock"))?;
+            // NOTE: A panic in an earlier call poisons the lock; the provider is still usable.
+            .unwrap_or_else(std::sync::PoisonError::into_inner);
         self.start_of_day_with_provider(&*provider)
     }
 
@@ -372,7 +403,8 @@ impl ZonedDateTime {
     pub fn to_plain_date(&self) -> TemporalResult<PlainDate> {
         let provider = TZ_PROVIDER
             .lock()
-            .map_err(|_| TemporalError::general("Unable to acquire lock"))?;
+            // NOTE: A panic in an earlier call poisons the lock; the provider is still usable.
+            .unwrap_or_else(std::sync::PoisonError::into_inner);
         self.to_plain_date_with_provider(&*provider)
     }
 
@@ -382,7 +414,8 @@ impl ZonedDateTime {
     pub fn to_plain_time(&self) -> TemporalResult<PlainTime> {
         let provider = TZ_PROVIDER
             .lock()
-            .map_err(|_| TemporalError::general("Unable to acquire lock"))?;
+            // NOTE: A panic in an earlier call poisons the lock; the provider is still usable.
+            .unwrap_or_else(std::sync::PoisonError::into_inner);
         self.to_plain_time_with_provider(&*provider)
     }
 
@@ -392,7 +425,8 @@ impl ZonedDateTime {
     pub fn to_plain_datetime(&self) -> TemporalResult<PlainDateTime> {
         let provider = TZ_PROVIDER
             .lock()
-            .map_err(|_| TemporalError::general("Unable to acquire lock"))?;
+            // NOTE: A panic in an earlier call poisons the lock; the provider is still usable.
+            .unwrap_or_else(std::sync::PoisonError::into_inner);
         self.to_plain_datetime_with_provider(&*provider)
     }
 
@@ -408,7 +442,8 @@ impl ZonedDateTime {
     ) -> TemporalResult<String> {
         let provider = TZ_PROVIDER
             .lock()
-            .map_err(|_| TemporalError::general("Unable to acquire lock"))?;
+            // NOTE: A panic in an earlier call poisons the lock; the provider is still usable.
+            .unwrap_or_else(std::sync::PoisonError::into_inner);
         self.to_ixdtf_string_with_provider(
             display_offset,
             display_timezone,
@@ -428,7 +463,8 @@ impl ZonedDateTime {
     ) -> TemporalResult<Self> {
         let provider = TZ_PROVIDER
             .lock()
-            .map_err(|_| TemporalError::general("Unable to acquire lock"))?;
+            // NOTE: A panic in an earlier call poisons the lock; the provider is still usable.
+            .unwrap_or_else(std::sync::PoisonError::into_inner);
         ZonedDateTime::from_str_with_provider(source, disambiguation, offset_option, &*provider)
     }
 }
